@@ -164,6 +164,18 @@ CHECKS = {
         note="Trusted: TLC, renderer. Four genuine defects are recorded as known findings (headers with a join/sum of objects, ranges as a transfer domain, imported functions not re-checked per application); each needs a language-level decision rather than a local patch.",
         technique="TLA+ reference kind checker + abstract interpreter of the evaluator with casts as guards (TLC over position x shape x indirection families) + exact spec->impl replay of outcome class and crash site",
     ),
+    "C06": dict(
+        design_ref="DESIGN.md 4 (C06)",
+        text="Determinism.tla lists every collection of the evaluated specification that reaches the serializer with its iteration "
+             "discipline (insertion order, fixed key order, or hashed = any order) and TLC checks Deterministic (at most one entry "
+             "eligible next) and SourceOrder; a second configuration keeps the pinned hashed discipline of `examples`, where TLC finds "
+             "the nondeterminism itself. The binding is observational: directed programs that put 2-5 entries into each collection "
+             "(examples at three levels, references, ranges, methods, rec in functions, imported modules) and accepted corpus programs "
+             "are compiled by 8 (quick) / 48 (thorough) fresh oal-cli processes and three times in one process after unrelated "
+             "compilations; all YAML texts must be byte-identical and examples must appear in source order.",
+        note="Trusted: TLC, the process runner. Hash seeds are observed over N processes, not modelled; the model is small and mainly records which collections must be ordered.",
+        technique="TLA+ model of iteration disciplines of the output-path collections (TLC) + multi-process / repeated in-process byte comparison of the real compiler's output",
+    ),
 }
 
 PENDING_REASON = "check not built yet (work in progress; see DESIGN.md section 8 for the build order)"
